@@ -597,6 +597,17 @@ class SymFloat:
         v = _numval(s.t)
         return SymFloat(fr_to_z3(-v) if v is not None else -s.t)
 
+    def __mod__(s, m):
+        """x % m for a concrete positive modulus: r = x - m*k, k integer, 0 <= r < m (Python float semantics)."""
+        if not isinstance(m, (int, float, _np.integer, _np.floating)) or not m > 0:
+            return NotImplemented
+        ex = cur()
+        k = ex.fresh('modk', 'int')
+        r = ex.fresh('modr')
+        mm = lift(m)
+        ex.assume(z3.And(r == s.t - mm * z3.ToReal(k), r >= 0, r < mm))
+        return SymFloat(r)
+
     def __pos__(s): return s
     def __abs__(s): return SymFloat(zabs(s.t))
 
